@@ -3987,7 +3987,7 @@ int32_t parseAuthorityInfoAccess(psPool_t *pool,
             return PS_PARSE_FAIL;
         }
         /* accessMethod. */
-        if (*p++ != ASN_OID)
+        if (authInfoEnd - p < 1 || *p++ != ASN_OID)
         {
             psTraceCrypto("Malformed extension header\n");
             return PS_PARSE_FAIL;
@@ -4014,6 +4014,11 @@ int32_t parseAuthorityInfoAccess(psPool_t *pool,
             return PS_PARSE_FAIL;
         }
         /* accessLocation. */
+        if (authInfoEnd - p < 1)
+        {
+            psTraceCrypto("Malformed AccessDescription\n");
+            return PS_PARSE_FAIL;
+        }
         switch (*p++)
         {
         case (ASN_CONTEXT_SPECIFIC + 6):
@@ -4243,6 +4248,11 @@ KNOWN_EXT:
 /*
                 Have seen some certs that don't include a cA bool.
  */
+            if (extEnd - p < 1)
+            {
+                psTraceCrypto("Error parsing BC extension\n");
+                return PS_PARSE_FAIL;
+            }
             if (*p == ASN_BOOLEAN)
             {
                 if (extEnd - p < 3)
@@ -4280,7 +4290,7 @@ KNOWN_EXT:
                 sense if cA is true.  If it's missing, there is no limit to
                 the cert path
  */
-            if (*p == ASN_INTEGER)
+            if (p < extEnd && *p == ASN_INTEGER)
             {
                 if (getAsnInteger(&p, (uint32) (extEnd - p),
                         &(extensions->bc.pathLenConstraint)) < 0)
@@ -4329,7 +4339,7 @@ KNOWN_EXT:
                     encipherOnly                        (7),
                     decipherOnly                        (8) }
  */
-            if (*p++ != ASN_BIT_STRING)
+            if (extEnd - p < 1 || *p++ != ASN_BIT_STRING)
             {
                 psTraceCrypto("Error parsing keyUsage extension\n");
                 return PS_PARSE_FAIL;
@@ -4363,7 +4373,7 @@ KNOWN_EXT:
                BIT STRING, which is not included in the length. This is
                an incorrect encoding, but let's be liberal in what we
                accept. */
-            if (*p == 0x00)
+            if (p < extEnd && *p == 0x00)
             {
                 p++;
             }
@@ -4377,6 +4387,11 @@ KNOWN_EXT:
                 return PS_PARSE_FAIL;
             }
             save = p;
+            if ((uint32) (extEnd - p) < fullExtLen)
+            {
+                psTraceCrypto("Malformed extKeyUsage length\n");
+                return PS_PARSE_FAIL;
+            }
             while (fullExtLen > 0)
             {
                 if (*p++ != ASN_OID)
@@ -4384,8 +4399,8 @@ KNOWN_EXT:
                     psTraceCrypto("Malformed extension header\n");
                     return PS_PARSE_FAIL;
                 }
-                if (getAsnLength(&p, fullExtLen, &len) < 0 ||
-                    fullExtLen < len)
+                if (getAsnLength(&p, fullExtLen - 1, &len) < 0 ||
+                    fullExtLen - 1 < len)
                 {
                     psTraceCrypto("Malformed extension length\n");
                     return PS_PARSE_FAIL;
@@ -4455,6 +4470,11 @@ KNOWN_EXT:
                 psTraceCrypto("Error parsing authKeyId extension\n");
                 return PS_PARSE_FAIL;
             }
+            if ((uint32) (extEnd - p) < fullExtLen)
+            {
+                psTraceCrypto("Malformed nameConstraints length\n");
+                return PS_PARSE_FAIL;
+            }
             while (fullExtLen > 0)
             {
                 save = p;
@@ -4465,7 +4485,7 @@ KNOWN_EXT:
                     p++;
                     nc = 0;
                 }
-                if (*p == (ASN_CONTEXT_SPECIFIC | ASN_CONSTRUCTED | 1))
+                else if (*p == (ASN_CONTEXT_SPECIFIC | ASN_CONSTRUCTED | 1))
                 {
                     /* excludedSubtrees */
                     p++;
@@ -4550,6 +4570,8 @@ KNOWN_EXT:
 
             while (fullExtLen > 0)
             {
+                const unsigned char *dpEnd;
+
                 save = p;
                 if (getAsnSequence(&p, (uint32) (extEnd - p), &len) < 0)
                 {
@@ -4562,8 +4584,10 @@ KNOWN_EXT:
                     return PS_PARSE_FAIL;
                 }
                 fullExtLen -= len + (p - save);
+                dpEnd = p + len; /* end of this DistributionPoint */
                 /* All memebers are optional */
-                if (*p == (ASN_CONTEXT_SPECIFIC | ASN_CONSTRUCTED | 0))
+                if (p < dpEnd &&
+                    *p == (ASN_CONTEXT_SPECIFIC | ASN_CONSTRUCTED | 0))
                 {
                     /* DistributionPointName */
                     p++;
@@ -4608,7 +4632,8 @@ KNOWN_EXT:
                         return PS_PARSE_FAIL;
                     }
                 }
-                if (*p == (ASN_CONTEXT_SPECIFIC | ASN_CONSTRUCTED | 1))
+                if (p < dpEnd &&
+                    *p == (ASN_CONTEXT_SPECIFIC | ASN_CONSTRUCTED | 1))
                 {
                     p++;
                     /* ReasonFlags not parsed */
@@ -4620,7 +4645,8 @@ KNOWN_EXT:
                     }
                     p += len;
                 }
-                if (*p == (ASN_CONTEXT_SPECIFIC | ASN_CONSTRUCTED | 2))
+                if (p < dpEnd &&
+                    *p == (ASN_CONTEXT_SPECIFIC | ASN_CONSTRUCTED | 2))
                 {
                     p++;
                     /* General Names not parsed */
@@ -4667,7 +4693,7 @@ KNOWN_EXT:
                 break;
             }
             /* All members are optional */
-            if (*p == (ASN_CONTEXT_SPECIFIC | ASN_PRIMITIVE | 0))
+            if (p < extEnd && *p == (ASN_CONTEXT_SPECIFIC | ASN_PRIMITIVE | 0))
             {
                 p++;
                 if (getAsnLength(&p, (int32) (extEnd - p),
@@ -4686,7 +4712,7 @@ KNOWN_EXT:
                 Memcpy(extensions->ak.keyId, p, extensions->ak.keyLen);
                 p = p + extensions->ak.keyLen;
             }
-            if (*p == (ASN_CONTEXT_SPECIFIC | ASN_CONSTRUCTED | 1))
+            if (p < extEnd && *p == (ASN_CONTEXT_SPECIFIC | ASN_CONSTRUCTED | 1))
             {
                 p++;
                 if (getAsnLength(&p, (int32) (extEnd - p), &len) < 0 ||
@@ -4716,8 +4742,9 @@ KNOWN_EXT:
                     return PS_PARSE_FAIL;
                 }
             }
-            if ((*p == (ASN_CONTEXT_SPECIFIC | ASN_PRIMITIVE | 2)) ||
-                (*p == ASN_INTEGER))
+            if (p < extEnd &&
+                ((*p == (ASN_CONTEXT_SPECIFIC | ASN_PRIMITIVE | 2)) ||
+                 (*p == ASN_INTEGER)))
             {
 /*
                     Treat as a serial number (not a native INTEGER)
@@ -4739,7 +4766,8 @@ KNOWN_EXT:
                 extension of certificates issued by the subject of
                 this certificate.
  */
-            if (*p++ != ASN_OCTET_STRING || getAsnLength(&p,
+            if (extEnd - p < 1 ||
+                *p++ != ASN_OCTET_STRING || getAsnLength(&p,
                     (int32) (extEnd - p), &(extensions->sk.len)) < 0 ||
                 (uint32) (extEnd - p) < extensions->sk.len)
             {
